@@ -202,9 +202,30 @@ def sweep_containers(tier, viol, stats, rnd):
                         break
 
 
+def sweep_constructs(tier, viol, stats):
+    """the default (HTML / Markdown aware) splitter with atomic constructs among the words, next to characters that a placeholder
+    scheme might use itself (private-use code points, NUL excepted: recorded finding C04-plaintext-nul): nothing invented, nothing lost"""
+    import itertools
+    from flowmark.linewrapping.text_wrapping import wrap_paragraph, wrap_paragraph_lines
+    pool = ["`c d`", "[l k](u)", "{% t %}", "<b>", "w\ue000", "\ue001", "\ue002x\ue003", "\uf8ff", "plain", "\U000f0000y"]
+    for n in (2, 3):
+        for tup in itertools.permutations(pool, n):
+            text = " ".join(tup)
+            for width in (6, 12, 40):
+                lines = wrap_paragraph_lines(text, width, 0, 0, is_markdown=True)
+                stats["evals"] += 1
+                if " ".join(lines).split() != text.split():
+                    viol.append({"clause": "lossless", "function": "wrap_paragraph_lines", "input": {"text": text, "width": width, "is_markdown": True}, "got": lines})
+            out = wrap_paragraph(text, 12)
+            stats["evals"] += 1
+            if out.split() != text.split():
+                viol.append({"clause": "lossless", "function": "wrap_paragraph", "input": {"text": text, "width": 12}, "got": out})
+
+
 def bounded(tier, seed):
     rnd = random.Random(seed)
     viol, stats = [], {"evals": 0, "distinct": set()}
+    sweep_constructs(tier, viol, stats)
     sweep_containers(tier, viol, stats, rnd)
     sweep_w(tier, viol, stats)
     sweep_wrappers(tier, viol, stats, rnd)
@@ -214,7 +235,7 @@ def bounded(tier, seed):
     return {"evaluations": stats["evals"], "distinct_nontrivial": len(stats["distinct"]), "violations": viol,
             "samples": [{"words": ["a", "bb", "cccc"], "width": 5, "cols": [0, 2], "function": "wrap_paragraph_lines"},
                         {"words": ["a.", "bbb", "cccccc."], "width": 10, "indents": ["- ", "  "], "function": "line_wrap_by_sentence"}],
-            "rule": "exhaustive word-length vectors (lengths {1,2,4,7}, <=4 words quick / <=5 thorough) x widths x (initial_column, "
+            "rule": "(also: every ordered pair / triple of 10 tokens -- atomic constructs and words holding private-use code points -- through the default splitter: lossless) exhaustive word-length vectors (lengths {1,2,4,7}, <=4 words quick / <=5 thorough) x widths x (initial_column, "
                     "subsequent_offset) pairs x markdown flag for wrap_paragraph_lines / wrap_paragraph; (lengths {1,3,6}, 3-4 words, "
                     "every placement of sentence ends) x widths x container indents for both line wrappers; fill_text Wrap.WRAP on "
                     "two-paragraph texts; seeded paragraphs behind list / task / ordered / quote markers through reformat_text at 4 widths; clauses lossless / indents / bounded / maximal / no_wrap of spec/wraps.py; distinct = "
